@@ -38,7 +38,7 @@ static int wcmp(const void *a, const void *b) { return memcmp(a, b, sizeof(pm_wk
 static int insert(pm_state_t *s) {
     qsort(s->w, P_, sizeof(pm_wk_t), wcmp);
     unsigned long h = hsh(s) % cap; while (used[h]) { if (!memcmp(&tab[h], s, sizeof *s)) return 0; h = (h + 1) % cap; }
-    if (nstates + 1 >= cap / 2) { fprintf(stderr, "mcproto: state table full\n"); exit(3); }
+    if (nstates + 1 >= cap / 2) { fflush(NULL); _exit(4); }      /* capacity of the state table reached: the configuration is reported as not exhausted (never as a violation) */
     used[h] = 1; tab[h] = *s; nstates++; queue_[qt++] = *s; return 1;
 }
 /* I6 (termination): a rank that every transition except the fruitless poll (SCHED -> CHECK on EMPTY) strictly increases;
@@ -130,7 +130,7 @@ int main(int argc, char **argv) {
     if (one) { const char *p; if ((p = strstr(one, "n="))) N_ = atoi(p + 2); if ((p = strstr(one, " P="))) P_ = atoi(p + 3); if ((p = strstr(one, " w="))) W_ = atoi(p + 3); if ((p = strstr(one, "rlx="))) RLX_ = atoi(p + 4); }
     if (N_ > PM_NMAX || P_ > PM_PMAX) { fprintf(stderr, "bounds\n"); return 2; }
     cap = 1L << arg_int(argc, argv, "--log2cap", 23); tab = malloc(cap * sizeof *tab); used = malloc(cap); queue_ = malloc((cap / 2 + 8) * sizeof *queue_);
-    long crashes = 0;
+    long crashes = 0, capacity_hits = 0;
     for (;;) {      /* the search runs in a child: a crash of the real scheduler code on the shadow structures is a finding, not the end of the run */
         fflush(NULL); vf_sh->where[0] = 0;
         pid_t pid = fork();
@@ -140,6 +140,7 @@ int main(int argc, char **argv) {
             fflush(NULL); _exit(0); }
         int st = 0; waitpid(pid, &st, 0); vf_last_child = pid;
         if (WIFEXITED(st) && WEXITSTATUS(st) == 0) break;
+        if (WIFEXITED(st) && WEXITSTATUS(st) == 4) { complete = 0; capacity_hits++; PS->resume_after += 1; if (one || capacity_hits > 500) break; continue; }
         crashes++;
         { char cd[160]; int kind = WIFSIGNALED(st) ? VF_SIGNAL : WEXITSTATUS(st) == 98 ? VF_FAULT : WEXITSTATUS(st) == 99 ? VF_ASAN : VF_EXIT; vf_crash_desc(kind, WIFSIGNALED(st) ? WTERMSIG(st) : WEXITSTATUS(st), cd, sizeof cd);
           const char *site = strchr(cd, '@'); char sig[160]; snprintf(sig, sizeof sig, "%s:protocol:crash:%s", PROP, site ? site : cd);
@@ -153,7 +154,7 @@ int main(int argc, char **argv) {
         const char *owner = k <= 3 ? "C03" : "C04"; snprintf(sig, sizeof sig, "%s:protocol:%s", owner, nm[k]);
         if (!strcmp(owner, PROP)) out_violation(PROP, sig, tcfg[k], "%s (%ld states/transitions violate it; first configuration given)", tmsg[k], tviol[k]); }
     if (nforests) out_sample(PROP, "forests with n=%d columns, P=%d, panel size %d, relax %d: e.g. parent vector of the last one explored: %d%d%d...; %ld reachable states in the largest configuration", N_, P_, W_, RLX_, par[0], N_ > 1 ? par[1] : 0, N_ > 2 ? par[2] : 0, max_states_cfg);
-    out_stats(PROP, "\"engine\":\"mcproto\",\"n\":%d,\"P\":%d,\"w\":%d,\"relax\":%d,\"slice\":\"%d/%d\",\"forests\":%ld,\"states\":%ld,\"transitions\":%ld,\"final_states\":%ld,\"distinct_states\":%ld,\"runs\":%ld,\"violations\":%ld,\"complete\":%s,\"wall_s\":%.2f",
-              N_, P_, W_, RLX_, isl, nsl, nforests, tot_states, tot_trans, finals_total, tot_states, nforests, nv, complete ? "true" : "false", now_s() - T0);
+    out_stats(PROP, "\"engine\":\"mcproto\",\"n\":%d,\"P\":%d,\"w\":%d,\"relax\":%d,\"slice\":\"%d/%d\",\"forests\":%ld,\"states\":%ld,\"transitions\":%ld,\"final_states\":%ld,\"distinct_states\":%ld,\"runs\":%ld,\"violations\":%ld,\"state_table_full\":%ld,\"complete\":%s,\"wall_s\":%.2f",
+              N_, P_, W_, RLX_, isl, nsl, nforests, tot_states, tot_trans, finals_total, tot_states, nforests, nv, capacity_hits, complete ? "true" : "false", now_s() - T0);
     return one ? (nv ? 1 : 0) : 0;
 }
